@@ -284,8 +284,9 @@ impl Session {
         }
         for (vi, view) in views.iter().enumerate() {
             let (gets, errs) = self.wd.call("get", || get_all(db, &u, *view));
+            // scans at snapshots do not fill the block cache, scans at the latest state do
             let ro = ReadOptions {
-                fill_cache: true,
+                fill_cache: vi == 0,
                 snapshot: view.cloned(),
             };
             let (fwd, bwd) = self.wd.call("scan", || match db.new_iterator(ro) {
@@ -431,7 +432,7 @@ impl Session {
             Op::IterNew { snap } => {
                 let db = self.db.as_ref().unwrap();
                 let ro = ReadOptions {
-                    fill_cache: true,
+                    fill_cache: self.iters.len() % 2 == 0,
                     snapshot: snap.and_then(|i| self.snaps.get(i).cloned()),
                 };
                 if let Ok(it) = self.wd.call("new_iterator", || db.new_iterator(ro)) {
